@@ -302,7 +302,7 @@ def gen_expr_case(ch):
 
 def gen_property_case(ch):
     m, info = gen.properties(ch, depth=ch.int(1, 3), chaos=ch.pick([0, 0, 6]))
-    alias_topic = {e[2]: e[1] for _r, evn in mast.event_positions(m) for e in mast.simple_events(evn) if e[2]}
+    alias_topic = mast.alias_topics(m)
     return {'text': mast.render(m), 'm': m, 'topics': info['topics'], 'alias_topic': alias_topic}
 
 
